@@ -71,6 +71,9 @@ def rand_text(rng, maxlen=12, allow_ws_only=True):
                 cp = 0x4E2D
             out.append(chr(cp))
     s = "".join(out)
+    if rng.random() < 0.12:
+        # capital Latin-1 letters have legacy (semicolon-less) entity names: followed by an alphanumeric or '='
+        s = s + rng.choice(["\xc9cole", "\xc1RBOL", "\xd6l=1", "?q=\xc7a", "\xde2", "\xd1andu", "\xc0x", "\xd8=", "na\xcfve\xc9"])
     if rng.random() < 0.1:
         s = rng.choice(["&amp;", "&lt;b&gt;", "</p>", "<!--x-->", "&#38;", "]]>", "<![CDATA[", "&notit;", "&amp", "\n", "\n\n", " "]) + s
     if not allow_ws_only and not s.strip(" \t\n\x0c"):
